@@ -354,7 +354,7 @@ func toYAML(v any, flow bool) []byte {
 	}
 	out, _ := yaml.Marshal(&node)
 	// unquote numeric / boolean-looking keys
-	re := regexp.MustCompile(`(?m)^(\s*(?:- )?)"(-?(?:0|[1-9]\d*)|true|false|(?:0|[1-9]\d*)\.\d*[1-9])":`)
+	re := regexp.MustCompile(`(?m)^(\s*(?:- )?)"(0|-?[1-9]\d*|true|false|(?:0|[1-9]\d*)\.\d*[1-9])":`)
 	return re.ReplaceAll(out, []byte(`$1$2:`))
 }
 
